@@ -161,6 +161,9 @@ def judge(case):
 
 
 def judge_case(record):
+    part = record.get("part", "")
+    if part.startswith("python-"):  # found under an optimised interpreter: replay there
+        return runner.child_judge("C08", [record["case"]], py_flags=(part[len("python"):],))["results"][0]
     return judge(record["case"])["viol"]
 
 
@@ -225,4 +228,20 @@ def run(ctx, rec):
         runner.direct_run(ctx, rec, "fixed-comment-contents", fixed_cases(), judge)
         if rec.violations:
             return
+    if ctx.shard == 0:
+        # the meaning of trivia does not depend on how the interpreter was started: python -O / -OO (assert statements and
+        # __debug__ blocks compiled out) on a slice of the fixed catalogue
+        import itertools
+
+        sl = list(itertools.islice(fixed_cases(), 0, 66, 11)) + list(fixed_cases())[-2:]
+        for flags in (("-O",), ("-OO",)):
+            res = runner.child_judge("C08", sl, py_flags=flags)
+            rec.count("child-interpreter:" + "".join(flags), len(sl))
+            rec.evaluations += len(sl)
+            if res["flags"]["optimize"] < 1:
+                raise runner.HarnessError("child did not run optimised")
+            for c, msgs in zip(sl, res["results"]):
+                if msgs:
+                    rec.violation("python%s" % "".join(flags), c, ["under python %s: %s" % ("".join(flags), m) for m in msgs])
+                    return
     runner.hyp_run(ctx, rec, "trivia", cases(), judge, ctx.n(400, 2500))
